@@ -17,7 +17,7 @@ if [ -n "${JUDGE:-}" ]; then
 else
   VERIF_REPO=$EV ./check.sh $CHK $TIER > $OUT/check-$CHK-$TIER.log 2>&1; RC=$?
 fi
-RES=MISSED; [ $RC -eq 1 ] && grep -q "^VIOLATION property=$CHK" $OUT/check-$CHK-$TIER.log && RES=DETECTED
+RES=MISSED; [ $RC -eq 1 ] && grep -aq "^VIOLATION property=$CHK" $OUT/check-$CHK-$TIER.log && RES=DETECTED
 [ $RC -eq 2 ] && RES=INCONCLUSIVE
-echo "$ID by $CHK $TIER: $RES (exit $RC, $(grep -c '^VIOLATION' $OUT/check-$CHK-$TIER.log) violation lines) $(grep "^$CHK $TIER" $OUT/check-$CHK-$TIER.log | tail -1)"
+echo "$ID by $CHK $TIER: $RES (exit $RC, $(grep -ac "^VIOLATION" $OUT/check-$CHK-$TIER.log) violation lines) $(grep -a "^$CHK $TIER" $OUT/check-$CHK-$TIER.log | tail -1)"
 git -C /repo worktree remove --force $EV
